@@ -7,8 +7,10 @@ unifier from equal members (uploads with resume included).  Binding: seeded scen
 ociunify.New(ocimem, ocimem, policy) - members written directly so that they differ, then every
 kind of call through the unifier, both policies - recorded with a projection of both members after
 every call and validated by TLC against OciUnify (OciUnifyTrace)."""
+import concurrent.futures as cf
 import json
 import os
+import time
 
 import vlib
 
@@ -77,25 +79,42 @@ def samples(trace, want=5):
     return out
 
 
+def once_more(fn, *a, **kw):
+    """A TLC process that dies without a word (killed from outside) is started once more."""
+    try:
+        return fn(*a, **kw)
+    except vlib.Machinery as e:
+        if str(e).rstrip().endswith(':'):
+            return fn(*a, **kw)
+        raise
+
+
 def run(ctx):
     quick = ctx.tier == 'quick'
-    # 1. the design: all pairs of member states x every call through the unifier; histories from equal members
-    vlib.model_check(ctx, 'OciUnifyMC.tla', 'OciUnifyMC_view_quick.cfg', workers=MCW,
-                     what='all pairs of member states over 1 repository, 2 blobs, 2 manifests, 1 tag (49 x 49: equal, disjoint, overlapping, '
-                          'conflicting tag, repository known to none/one/both); every read, listing and write through the unifier, both policies')
-    vlib.model_check(ctx, 'OciUnifyMC.tla', 'OciUnifyMC_repl_quick.cfg', workers=MCW,
-                     what='all histories of 6 writes (plus reads) through the unifier from equal members, both tag modes, one upload session '
-                          'with close/resume at right and wrong offsets/cancel/commit: EqualStaysEqual')
+    with cf.ThreadPoolExecutor(max_workers=3) as ex:
+        # 1. the design: all pairs of member states x every call through the unifier; histories from equal members
+        f1 = ex.submit(once_more, vlib.model_check, ctx, 'OciUnifyMC.tla', 'OciUnifyMC_view_quick.cfg', workers=MCW,
+                       what='all pairs of member states over 1 repository, 2 blobs, 2 manifests, 1 tag (49 x 49: equal, disjoint, overlapping, '
+                            'conflicting tag, repository known to none/one/both); every read, listing and write through the unifier, both policies')
+        time.sleep(0.2)   # Ctx.sub numbers its directories without a lock
+        f2 = ex.submit(once_more, vlib.model_check, ctx, 'OciUnifyMC.tla', 'OciUnifyMC_repl_quick.cfg', workers=MCW,
+                       what='all histories of 6 writes (plus reads) through the unifier from equal members, both tag modes, one upload session '
+                            'with close/resume at right and wrong offsets/cancel/commit: EqualStaysEqual')
+        # 2. the real unifier over two real in-memory registries
+        f3 = ex.submit(vlib.build_harness, ctx)
+        f1.result()
+        f2.result()
+        vh = f3.result()
     if not quick:
-        vlib.model_check(ctx, 'OciUnifyMC.tla', 'OciUnifyMC_view_thorough.cfg', workers=MCW, timeout=900,
-                         what='pairs of member states with manifests stored under two media types, lister faults on either side')
-        vlib.model_check(ctx, 'OciUnifyMC.tla', 'OciUnifyMC_repl_thorough.cfg', workers=MCW, timeout=900,
-                         what='histories of 7 writes, 2 manifests, two upload sessions')
-    # 2. the real unifier over two real in-memory registries
-    vh = vlib.build_harness(ctx)
+        for cfg, what in (
+                ('OciUnifyMC_view_mediatypes.cfg', 'pairs of member states in which a manifest (and the tag on it) is stored under two different media types'),
+                ('OciUnifyMC_view_faults.cfg', 'the 49 x 49 pairs with a faulty lister on either side (error after 1 item; NAME_UNKNOWN at once): merge rules for errors'),
+                ('OciUnifyMC_view_2repos.cfg', '81 x 81 pairs over two repositories (known to none/one/both), mounts through the unifier, merged repository listings'),
+                ('OciUnifyMC_repl_thorough.cfg', 'all histories of 7 writes from equal members, 2 manifests, two upload sessions')):
+            once_more(vlib.model_check, ctx, 'OciUnifyMC.tla', cfg, workers=MCW, timeout=900, what=what)
     td = ctx.sub('traces')
     traces = []
-    nfiles, per = (4, 8) if quick else (16, 50)
+    nfiles, per = (4, 8) if quick else (16, 30)
     for i in range(nfiles):
         t = os.path.join(td, 'unify%d.ndjson' % i)
         run_unify(ctx, vh, t, n=per, seed=ctx.seed * 1000 + i)
@@ -108,7 +127,7 @@ def run(ctx):
             raise vlib.Machinery('the batch never reached the situation %r' % need)
     ctx.cov['samples'] = [dict(recorded_events=samples(traces[0]))]
     # 3. TLC validates every recorded call and both members' snapshots against OciUnify
-    vlib.judge_traces(ctx, MODULE, CFG, traces, shard_lines=2500 if quick else 6000, label='ociunify over two ocimem vs OciUnify')
+    judge(ctx, traces, shard_lines=4000 if quick else 8000, label='ociunify over two ocimem vs OciUnify')
     ctx.assumptions += ['members are ocimem registries (validated against OciRegistry by C02) with the same tag mode; a failing lister is a wrapper of the harness',
                         '"has the tag" for GetTag is what the member itself answers (a member whose tag dangles counts as not having it)',
                         'digest<->content mapping and manifest rendering by the harness; TLC and the Json/IOUtils community modules']
@@ -120,12 +139,24 @@ def run(ctx):
                        'UnionView, TagConflictNeverSilent, WriteBoth, ReadsChangeNothing, PoliciesAgree, EqualStaysEqual hold on that step')
 
 
+def judge(ctx, traces, **kw):
+    nv, nk = len(ctx.violations), len(ctx.known)
+    try:
+        return vlib.judge_traces(ctx, MODULE, CFG, traces, **kw)
+    except vlib.Machinery as e:
+        if not str(e).rstrip().endswith(':'):
+            raise
+        del ctx.violations[nv:]
+        del ctx.known[nk:]
+        return vlib.judge_traces(ctx, MODULE, CFG, traces, **kw)
+
+
 def replay(ctx, path):
     vh = vlib.build_harness(ctx)
     out = os.path.join(ctx.sub('replay'), 'trace.ndjson')
     run_unify(ctx, vh, out, replay=path)
     before = len(ctx.violations)
-    vlib.judge_traces(ctx, MODULE, CFG, [out], label='replay')
+    judge(ctx, [out], label='replay')
     for k in ctx.known:
         print('KNOWN-FINDING: property=%s %s: %s' % (ctx.pid, k['id'], k['what']))
     if len(ctx.violations) > before:
